@@ -353,7 +353,7 @@ PROPS["C02"] = mux_prop(
     explanation="Five local contracts over the real MuxStream / Task code whose conjunction gives: bytes read = prefix of bytes written, per stream, in order, exactly once, no cross-talk.")
 
 PROPS["C03"] = mux_prop(
-    "C03", pick("c03_", "c02_w_plain", "c02_w_vec_1_2", extra=["c10_push_est_full", "c10_ack_est", "c04_threshold_con_recv", "c04_threshold_ack_recv", "c07_accept",
+    "C03", pick("c03_", "c02_w_plain", "c02_w_vec_1_2", extra=["c12_atomic_writer_in_ack_k0", "c12_atomic_writer_in_ack_k1", "c12_atomic_writer_in_ack_k2", "c10_push_est_full", "c10_ack_est", "c04_threshold_con_recv", "c04_threshold_ack_recv", "c07_accept",
                                                                 "c12_race_ack_w0", "c12_race_ack_w1", "c12_race_ack_w2", "c12_race_ack_w3", "c12_race_ack_w6"]), thorough_only={"c02_w_plain_l3"},
     note="one transition of the credit accounting invariant credit + in-flight + queued + consumed-unacked + acks-in-flight = rwnd",
     bounds=dict(windows="symbolic u32", thresholds="symbolic u32 >= 1", counter="symbolic < threshold", queue="capacity 2"),
@@ -400,12 +400,15 @@ PROPS["C11"] = mux_prop(
 
 PROPS["C12"] = mux_prop(
     "C12", pick("c12_", extra=["c03_credit_return"]),
-    note="the other party's whole operation runs before / at the k-th log site of / after the writer's poll",
-    bounds=dict(parties="one writer poll vs one acknowledge(n>=1) or one close", scheduling_points="before the poll, at each place where poll_obtain_write_permission logs (up to 5), after the poll", memory_model="sequential consistency"),
-    outside=["PARTIAL: interleavings at the granularity of individual atomic operations and C11 weak-memory behaviours are NOT explored (Kani has no threads; atomics cannot be stubbed); only whole-operation injection at the listed points", "two concurrent writers",
-             "a change that removes the log lines removes scheduling points: the run then fails its witness (no harness satisfied 'ran at a scheduling point inside')"],
-    assumptions=["futures_util::task::AtomicWaker is executed for real (sequentially)"],
-    require_covers_any=[r"the other party ran at a scheduling point inside"],
+    note="the other party's whole operation runs before / at the k-th log site or k-th atomic operation of / after this party's operation",
+    bounds=dict(parties="one writer poll vs one acknowledge(n>=1) or one close; either party may be the one that is interrupted",
+                scheduling_points="before the operation, at each place where poll_obtain_write_permission logs (up to 5), immediately before each of its first 5 atomic operations, immediately before each of the first 3 atomic operations of acknowledge / disallow_write, after the operation",
+                memory_model="sequential consistency", initial_credit="0..2"),
+    outside=["PARTIAL: one party's operation is always executed as a whole inside the other's (interleavings in which BOTH operations are split are not explored); C11 weak-memory behaviours are NOT explored (Kani has no threads: the atomics are the sequential ones, orderings are ignored)",
+             "compare_exchange_weak is modelled without spurious failures", "two concurrent writers",
+             "a change that removes the log lines removes those scheduling points: the run then fails its witness (no harness satisfied 'ran at a scheduling point inside')"],
+    assumptions=["futures_util::task::AtomicWaker is executed for real (sequentially)", "crate::loom::{AtomicU32, AtomicBool} are replaced in the scratch copy by wrappers that pass a scheduling point before every operation (harness/mux/common.rs; the re-export line of loom.rs is rewritten by lib/vdriver.py)"],
+    require_covers_any=[r"the other party ran at a scheduling point inside", r"the writer ran between two atomic operations of the task's operation", r"the other party ran between two atomic operations of the writer's poll"],
     explanation="Sequentialised two-party race: if the poll returns Pending although credit arrived or the stream was closed at any chosen point, a wake-up must have been delivered; final credit = grants - permissions.")
 
 PROPS["C16"] = mux_prop(
